@@ -148,11 +148,20 @@ where
             for l in 0..=d {
                 let mut row = Vec::new();
                 for j in 0..(1usize << l) {
-                    let idx = j << (d - l);
-                    row.push(match t.get_subtree_root(l, idx) {
+                    // every leaf index inside a subtree names that subtree: the first, a middle and the last index must agree
+                    // (asking only with the aligned first index would miss a shortcut keyed on the queried index)
+                    let span = 1usize << (d - l);
+                    let first = j << (d - l);
+                    let probes = [first, first + span / 2, first + span - 1];
+                    let vals: Vec<String> = probes.iter().map(|idx| match t.get_subtree_root(l, *idx) {
                         Ok(v) => fr_hex(&v),
                         Err(_) => "err".into(),
-                    });
+                    }).collect();
+                    if vals.iter().all(|v| *v == vals[0]) {
+                        row.push(vals[0].clone());
+                    } else {
+                        row.push(format!("UNALIGNED-QUERY-DIFFERS(first={} mid={} last={})", vals[0], vals[1], vals[2]));
+                    }
                 }
                 levels.push(show_list(&row));
             }
